@@ -71,7 +71,9 @@ CFG = {
     "C11": dict(pkg="core", test="^TestC11$", shards=(8, 16), checks=(8000, 60000)),
     "C12": dict(pkg="total", test="^TestC12$", shards=(8, 16), checks=(45000, 1500000),
                 fuzz=dict(pkg="total", target="^FuzzTotal$", seconds=(0, 300))),
-    "C13": dict(pkg="core", race=True, test="^TestC13$", shards=(8, 16), checks=(40, 500), shrinktime="5s"),
+    "C13": dict(pkg="core", race=True, shards=(8, 16), shrinktime="5s", tests=[
+        dict(test="^TestC13$", checks=(40, 500)),
+        dict(test="^TestC13LongRun$", checks=(1, 1))]),
     "C14": dict(pkg="core", shards=(8, 16), tests=[
         dict(test="^TestC14Enum$", checks=(2, 40)),
         dict(test="^TestC14Step$", checks=(1000, 20000)),
